@@ -291,6 +291,8 @@ def rich_options(rnd):
     if rnd.random() < 0.45:
         kw['variableLengthFrags'] = True
     kw['dialect'] = rnd.choice(DIALECTS)
+    if rnd.random() < 0.2:
+        kw['full_escape'] = True
     sizekw = None
     if rnd.random() < 0.5:
         sizekw = {'do_all': rnd.randint(1, 3), 'do_all_exceptions': rnd.randint(1, 3),
